@@ -59,9 +59,13 @@ class DefUse:
                         r = r.value
                     if r is not t and self_attr(r):
                         out.add(r.attr)
-                if isinstance(n, ast.Call) and isinstance(n.func, ast.Attribute) and self_attr(n.func.value) and \
+                if isinstance(n, ast.Call) and isinstance(n.func, ast.Attribute) and \
                         n.func.attr in ('append', 'update', 'setdefault', 'add', 'extend', 'insert', 'pop', 'clear', 'remove', 'popitem', 'discard'):
-                    out.add(n.func.value.attr)
+                    r = n.func.value
+                    while isinstance(r, ast.Subscript):
+                        r = r.value                      # self.groups[cl].append(...) updates self.groups
+                    if self_attr(r):
+                        out.add(r.attr)
         return out
 
     def ob(self, fn, name, ok, detail):
